@@ -48,6 +48,21 @@ impl FaultyStore {
     }
 }
 
+/// The ids a failed bulk call reports as done. The Storage contract gives them no order, so they are deliberately
+/// not reported in request order: descending when their sum is even, rotated by one otherwise (a function of the
+/// ids only, so a replay of the same call reports the same list).
+fn reported(mut ids: Vec<Key>) -> Vec<Key> {
+    if ids.len() > 1 {
+        let sum: u64 = ids.iter().fold(0u64, |a, b| a.wrapping_add(*b));
+        if sum % 2 == 0 {
+            ids.sort_unstable_by(|a, b| b.cmp(a));
+        } else {
+            ids.rotate_left(1);
+        }
+    }
+    ids
+}
+
 fn injected() -> MemStoreError {
     MemStoreError(anyhow::anyhow!("injected storage failure"))
 }
@@ -78,7 +93,7 @@ impl Storage for FaultyStore {
             Plan::Fail(ok) => {
                 let sel: Vec<Key> = keys.into_iter().filter(|k| ok.contains(k)).collect();
                 self.inner.remove_tombstones(keyspace, sel.clone().into_iter()).await?;
-                Err(BulkMutationError::new(injected(), sel))
+                Err(BulkMutationError::new(injected(), reported(sel)))
             },
             Plan::ParkAfterWrite => {
                 self.inner.remove_tombstones(keyspace, keys.into_iter()).await?;
@@ -115,7 +130,7 @@ impl Storage for FaultyStore {
                 let mut ids: Vec<Key> = sel.iter().map(|d| d.id()).collect();
                 ids.dedup();
                 self.inner.multi_put(keyspace, sel.into_iter()).await?;
-                Err(BulkMutationError::new(injected(), ids))
+                Err(BulkMutationError::new(injected(), reported(ids)))
             },
             Plan::ParkAfterWrite => {
                 self.inner.multi_put(keyspace, docs.into_iter()).await?;
@@ -152,7 +167,7 @@ impl Storage for FaultyStore {
                 let mut ids: Vec<Key> = sel.iter().map(|d| d.id).collect();
                 ids.dedup();
                 self.inner.mark_many_as_tombstone(keyspace, sel.into_iter()).await?;
-                Err(BulkMutationError::new(injected(), ids))
+                Err(BulkMutationError::new(injected(), reported(ids)))
             },
             Plan::ParkAfterWrite => {
                 self.inner.mark_many_as_tombstone(keyspace, docs.into_iter()).await?;
